@@ -21,6 +21,22 @@ type vSnap struct {
 	rttIdx                             int
 	nBroadcast, nTimerReset, nTimerExt int
 	nRequestTx, nSubscribe             int
+	// whole-state fingerprint (C11)
+	prevHash           vhash
+	lbts               uint64
+	lbtime, pstime     uint64
+	rttAvg, tpb, mtpb  int64
+	txh, miss          []vhash
+	txheld             []bool
+	seenOK             []bool
+	seenH              []uint32
+	seenV              []byte
+	th                 uint32
+	tv                 byte
+	td                 int64
+	armed              bool
+	ncache             int
+	nStopTx, nSign, nSetData, nNewBlock, nNewPreBlock int
 }
 
 func vCopyTab(t []ConsensusPayload[vhash]) []ConsensusPayload[vhash] {
@@ -37,7 +53,83 @@ func vTakeSnap(e *vEnv) *vSnap {
 		ntxh: len(d.TransactionHashes), ntx: len(d.Transactions), nmissing: len(d.MissingTransactions),
 		header: d.header, block: d.block, preHeader: d.preHeader, preBlock: d.preBlock, myIndex: d.MyIndex, primary: d.PrimaryIndex,
 		txsub: d.txSubscriptionOn, lastBlockIndex: d.lastBlockIndex, lastBlockView: d.lastBlockView, rttIdx: d.rttEstimates.idx,
-		nBroadcast: e.nBroadcast, nTimerReset: e.nTimerReset, nTimerExt: e.nTimerExtend, nRequestTx: e.nRequestTx, nSubscribe: e.nSubscribe}
+		nBroadcast: e.nBroadcast, nTimerReset: e.nTimerReset, nTimerExt: e.nTimerExtend, nRequestTx: e.nRequestTx, nSubscribe: e.nSubscribe,
+		prevHash: d.PrevHash, lbts: d.lastBlockTimestamp, lbtime: vNs(d.lastBlockTime), pstime: vNs(d.prepareSentTime),
+		rttAvg: int64(d.rttEstimates.avg), tpb: int64(d.timePerBlock), mtpb: int64(d.maxTimePerBlock),
+		txh: append([]vhash(nil), d.TransactionHashes...), miss: append([]vhash(nil), d.MissingTransactions...), txheld: vHeld(d),
+		seenOK: vSeenOK(d), seenH: vSeenH(d), seenV: vSeenV(d), th: e.th, tv: e.tv, td: int64(e.td), armed: e.armed, ncache: len(d.cache.mail),
+		nStopTx: e.nStopTx, nSign: e.nSign, nSetData: e.nSetData, nNewBlock: e.nNewBlock, nNewPreBlock: e.nNewPreBlock}
+}
+
+func vHeld(d *DBFT[vhash]) []bool {
+	r := make([]bool, len(d.TransactionHashes))
+	for i, h := range d.TransactionHashes {
+		_, r[i] = d.Transactions[h]
+	}
+	return r
+}
+
+func vSeenOK(d *DBFT[vhash]) []bool {
+	r := make([]bool, len(d.LastSeenMessage))
+	for i, hv := range d.LastSeenMessage {
+		r[i] = hv != nil
+	}
+	return r
+}
+
+func vSeenH(d *DBFT[vhash]) []uint32 {
+	r := make([]uint32, len(d.LastSeenMessage))
+	for i, hv := range d.LastSeenMessage {
+		if hv != nil {
+			r[i] = hv.Height
+		}
+	}
+	return r
+}
+
+func vSeenV(d *DBFT[vhash]) []byte {
+	r := make([]byte, len(d.LastSeenMessage))
+	for i, hv := range d.LastSeenMessage {
+		if hv != nil {
+			r[i] = hv.View
+		}
+	}
+	return r
+}
+
+// vpSameRest: the part of the state vpUnchanged does not cover: ledger link, time references,
+// transaction lists element by element, the timer model, the cache, and LastSeenMessage of
+// every validator except `sender` (-1: all).
+func vpSameRest(s *vSnap, e *vEnv, sender int) bool {
+	d := e.d
+	ok := s.prevHash == d.PrevHash && s.lbts == d.lastBlockTimestamp && s.lbtime == vNs(d.lastBlockTime) && s.pstime == vNs(d.prepareSentTime) &&
+		s.rttAvg == int64(d.rttEstimates.avg) && s.tpb == int64(d.timePerBlock) && s.mtpb == int64(d.maxTimePerBlock) &&
+		s.th == e.th && s.tv == e.tv && s.td == int64(e.td) && s.armed == e.armed && s.ncache == len(d.cache.mail) &&
+		vpSameTxs(s.txh, d.TransactionHashes) && vpSameTxs(s.miss, d.MissingTransactions) && len(s.seenOK) == len(d.LastSeenMessage)
+	if len(s.txh) == len(d.TransactionHashes) {
+		for i, h := range d.TransactionHashes {
+			if _, has := d.Transactions[h]; has != s.txheld[i] {
+				ok = false
+			}
+		}
+	}
+	if len(s.seenOK) == len(d.LastSeenMessage) {
+		for i, hv := range d.LastSeenMessage {
+			if i != sender {
+				if (hv != nil) != s.seenOK[i] {
+					ok = false
+				} else if hv != nil && (hv.Height != s.seenH[i] || hv.View != s.seenV[i]) {
+					ok = false
+				}
+			}
+		}
+	}
+	return ok
+}
+
+func vpNoCallbacks(s *vSnap, e *vEnv) bool {
+	return vpNoEffects(s, e) && s.nStopTx == e.nStopTx && s.nSign == e.nSign && s.nSetData == e.nSetData && s.nNewBlock == e.nNewBlock &&
+		s.nNewPreBlock == e.nNewPreBlock && e.nProcessBlock == 0 && e.nProcessPre == 0
 }
 
 func vpSameTab(a, b []ConsensusPayload[vhash]) bool {
@@ -136,6 +228,8 @@ func H_step() {
 	}
 	pre := vTakeSnap(e)
 	var msg *vPayload
+	cls := vParam("cls")
+	e.cls = cls
 
 	switch {
 	case api <= apiRecoveryMessage:
@@ -148,11 +242,56 @@ func H_step() {
 		}
 		// own payloads are not fed back and cannot be forged by others (DESIGN §4)
 		vAssume(int(msg.vidx) != d.MyIndex)
+		switch cls {
+		case 1: // validator index outside the current list
+			vAssume(int(msg.vidx) >= len(d.Validators))
+		case 2: // past height
+			vAssume(msg.height < d.BlockIndex)
+		case 3: // current-view proposal not sent by the view's primary
+			vAssume(msg.height == d.BlockIndex && msg.view == d.ViewNumber && uint(msg.vidx) != d.PrimaryIndex)
+		case 4: // proposal / response for a lower view
+			vAssume(msg.height == d.BlockIndex && msg.view < d.ViewNumber)
+		case 5: // prepare response from the primary
+			vAssume(msg.height == d.BlockIndex && msg.view == d.ViewNumber && uint(msg.vidx) == d.PrimaryIndex)
+		case 6: // pre-commit while anti-MEV is off
+			vAssume(!d.isAntiMEVExtensionEnabled() && msg.height == d.BlockIndex && msg.view <= d.ViewNumber)
+		case 9: // re-delivery of a payload that is stored in its slot
+			var tab []ConsensusPayload[vhash]
+			switch api {
+			case apiChangeView:
+				tab = d.ChangeViewPayloads
+			case apiPrepareRequest, apiPrepareResponse:
+				tab = d.PreparationPayloads
+			case apiCommit:
+				tab = d.CommitPayloads
+			case apiPreCommit:
+				tab = d.PreCommitPayloads
+			}
+			slot := vParam("slot")
+			vAssume(slot != d.MyIndex && tab[slot] != nil)
+			msg = tab[slot].(*vPayload)
+			vAssume(msg.typ == vMsgTypes[api])
+		}
 		d.OnReceive(msg)
 	case api == apiTimeout:
-		d.OnTimeout(vU32("timeout.height"), vU8("timeout.view"))
+		th, tv := vU32("timeout.height"), vU8("timeout.view")
+		if cls == 8 {
+			vAssume(th != d.BlockIndex || tv != d.ViewNumber)
+		}
+		d.OnTimeout(th, tv)
 	case api == apiTransaction:
-		d.OnTransaction(&vTx{h: vhash(vU64("tx.hash"))})
+		txh := vhash(vU64("tx.hash"))
+		if cls == 7 {
+			vAssume(!vpInList(d.MissingTransactions, txh))
+		}
+		if vParam("lasttx") == 1 {
+			// C12: the supplied transaction is a requested one
+			vAssume(vpInList(d.MissingTransactions, txh))
+		}
+		e.preMissing = len(d.MissingTransactions)
+		e.preAnswerOwed = d.IsBackup() && !d.Context.WatchOnly() && !d.NotAcceptingPayloadsDueToViewChanging() && d.RequestSentOrReceived() &&
+			d.PreparationPayloads[d.MyIndex] == nil && !d.blockProcessed && d.CommitPayloads[d.MyIndex] == nil && d.PreCommitPayloads[d.MyIndex] == nil
+		d.OnTransaction(&vTx{h: txh})
 	case api == apiNewTransaction:
 		d.OnNewTransaction()
 	}
@@ -211,6 +350,48 @@ func vpStepObligations(e *vEnv, pre *vSnap, msg *vPayload) {
 		vAssert("C05.O2.noprocess", e.nProcessBlock == 0 && e.nProcessPre == 0)
 		if e.api != apiRecoveryRequest {
 			vAssert("C05.O2.silent", vpNoEffects(pre, e))
+		}
+	}
+	if e.want("C11") && e.cls != 0 {
+		sender := -1
+		if msg != nil && e.cls != 1 && e.cls != 2 {
+			sender = int(msg.vidx)
+		}
+		vCover("C11.class")
+		kf2 := false
+		if e.cls == 9 && e.api == apiChangeView {
+			// KF-2 (DESIGN §7): an unsaturated change-view quorum is acted upon when a stored
+			// request is delivered again
+			kf2 = d.ViewNumber != pre.view || e.nBroadcast != pre.nBroadcast
+			vKnown("KF-2", kf2)
+		}
+		if !kf2 {
+			vAssert("C11.unchanged", vpUnchanged(pre, e))
+			vAssert("C11.unchanged.rest", vpSameRest(pre, e, sender))
+			if e.cls == 9 {
+				// nothing but, possibly, a recovery message in reply
+				vAssert("C11.O9.effects", pre.nTimerReset == e.nTimerReset && pre.nTimerExt == e.nTimerExtend && pre.nRequestTx == e.nRequestTx && pre.nSubscribe == e.nSubscribe &&
+					e.nProcessBlock == 0 && e.nProcessPre == 0 && pre.nSign == e.nSign && pre.nSetData == e.nSetData)
+				for _, ev := range e.log {
+					if ev.kind == evBroadcast {
+						vAssert("C11.O9.broadcast", ev.typ == RecoveryMessageType)
+					}
+				}
+			} else {
+				vAssert("C11.silent", vpNoCallbacks(pre, e))
+			}
+		}
+	}
+	if e.want("C12") && e.api == apiTransaction {
+		if e.preAnswerOwed && vParam("lasttx") == 1 && e.preMissing == 1 {
+			vCover("C12.O2.last")
+			answered := false
+			for _, ev := range e.log {
+				if ev.kind == evBroadcast && (ev.typ == PrepareResponseType && ev.h == pre.height && ev.v == pre.view || ev.typ == ChangeViewType) {
+					answered = true
+				}
+			}
+			vAssert("C12.O2.answered", answered)
 		}
 	}
 	if e.want("C10") && !d.Context.WatchOnly() && !d.blockProcessed {
